@@ -27,6 +27,7 @@ type c17DB struct {
 	extras   int // further tables u1..un created in this database
 	hasTable bool
 	rows     []string
+	as       []int // the value of column a of each row (insertion order)
 	ids      map[uint32]bool
 }
 
@@ -336,6 +337,7 @@ func (w *c17World) events() []c17Event {
 			return false
 		}
 		w.dbs[w.cur].rows = append(w.dbs[w.cur].rows, val)
+		w.dbs[w.cur].as = append(w.dbs[w.cur].as, w.seq)
 		return true
 	}})
 	ev = append(ev, c17Event{"UPDATE", func(w *c17World) bool {
@@ -359,6 +361,25 @@ func (w *c17World) events() []c17Event {
 		for i := range w.dbs[w.cur].rows {
 			w.dbs[w.cur].rows[i] = fmt.Sprintf("upd-%d", w.seq)
 		}
+		return true
+	}})
+	ev = append(ev, c17Event{"UPDATE last row", func(w *c17World) bool {
+		if w.cur == "" || !w.dbs[w.cur].hasTable || len(w.dbs[w.cur].rows) == 0 {
+			return true
+		}
+		db := w.dbs[w.cur]
+		w.seq++
+		val := fmt.Sprintf("last-%d", w.seq)
+		err := w.exec(fmt.Sprintf("UPDATE t SET c = '%s' WHERE a = %d", val, db.as[len(db.as)-1]))
+		if err != nil {
+			if pe, ok := err.(*panicErr); ok {
+				w.fail("panic", "UPDATE of the last row with database %q selected: %v\n%s", w.cur, pe.val, trimStack(pe.stack))
+			} else {
+				w.fail("statement-failed", "UPDATE of the last row in database %s: %v", w.cur, err)
+			}
+			return false
+		}
+		db.rows[len(db.rows)-1] = val
 		return true
 	}})
 	for i, s := range w.liveStores() {
@@ -385,9 +406,10 @@ func runC17(env *lib.Env, rep *lib.Report) {
 	if env.Thorough() {
 		depth = 6
 	}
-	seeds := []string{"empty", "a-with-row+b", "a-with-12-rows+b"}
+	seeds := []string{"empty", "a-with-row+b", "a-with-12-rows+b", "journeys"}
 	rep.Bounds["depth"] = fmt.Sprintf("quick: 4 from the one-row seed and from the empty directory, 3 from the flushed 12-row seed; thorough: 6 / 5 / 4 (this run: tier depth %d)", depth)
 	rep.Bounds["seeds"] = seeds
+	rep.Bounds["journeys"] = "from the flushed 12-row seed: every sequence of 5 (thorough 6) steps over {TICK, UPDATE all rows, UPDATE last row, INSERT, USE b + USE a, USE a, RESTART + USE a}"
 	rep.Bounds["events"] = "CREATE DATABASE a|B, USE a|b|A|B|nosuch (names are case-insensitive), CREATE TABLE t, CREATE TABLE u1/u2/.. (the next unused name), INSERT, UPDATE (all rows), TICK of every live store (including abandoned ones), RESTART; SHOW DATABASES and read-back are checked after every event"
 	known := env.OpenKnown()
 	explore(env, rep, 0, func(c *lib.Ctx) {
@@ -414,7 +436,7 @@ func runC17(env *lib.Env, rep *lib.Report) {
 		c.Logf("seed %s", seed)
 		if seed != "empty" {
 			script := []string{"CREATE DATABASE a", "CREATE DATABASE B", "USE a", "CREATE TABLE t", "INSERT"}
-			if seed == "a-with-12-rows+b" {
+			if seed == "a-with-12-rows+b" || seed == "journeys" {
 				// a table whose root is no longer a leaf
 				for i := 0; i < 11; i++ {
 					script = append(script, "INSERT")
@@ -430,7 +452,7 @@ func runC17(env *lib.Env, rep *lib.Report) {
 					}
 				}
 			}
-			if seed == "a-with-12-rows+b" {
+			if seed == "a-with-12-rows+b" || seed == "journeys" {
 				// flushed: every page of the table is clean, so later changes must dirty exactly the pages they touch
 				for _, e := range w.events() {
 					if strings.HasPrefix(e.name, "TICK store#0") {
@@ -472,6 +494,39 @@ func runC17(env *lib.Env, rep *lib.Report) {
 			if env.Thorough() {
 				steps = depth - 2
 			}
+		}
+		if seed == "journeys" {
+			// longer histories over a reduced alphabet of whole steps (each may be several statements): what one
+			// database goes through when it is written, flushed, left, re-entered and restarted again and again
+			macros := [][]string{{"TICK store#0"}, {"UPDATE"}, {"UPDATE last row"}, {"INSERT"}, {"USE b", "USE a"}, {"USE a"}, {"RESTART", "USE a"}}
+			jsteps := 5
+			if env.Thorough() {
+				jsteps = 6
+			}
+			for step := 0; step < jsteps; step++ {
+				m := macros[c.Choose(len(macros), "journey-step")]
+				for _, name := range m {
+					found := false
+					for _, e := range w.events() {
+						if e.name == name || (strings.HasPrefix(name, "TICK") && strings.HasPrefix(e.name, name)) {
+							c.Logf("%s", e.name)
+							found = true
+							if !e.run(w) {
+								return
+							}
+							break
+						}
+					}
+					if !found && !strings.HasPrefix(name, "TICK") {
+						panic(lib.HarnessError{Msg: "journey step names no event: " + name})
+					}
+					if !w.checkCur("after "+name) || !w.checkShow("after "+name) {
+						return
+					}
+				}
+				c.NonTrivial()
+			}
+			steps = 0
 		}
 		for step := 0; step < steps; step++ {
 			evs := w.events()
